@@ -3,7 +3,7 @@ from vlib import *
 import gen_vi, gen_ren
 from props import vilib
 
-PROP = "C19"; MODULES = ["NeatviVerif.Props.C19", "NeatviVerif.Props.C19b", "NeatviVerif.Props.C19c", "NeatviVerif.Props.C19d", "NeatviVerif.Props.C19e", "NeatviVerif.Props.C19f"]; MODE = "vi19"
+PROP = "C19"; MODULES = ["NeatviVerif.Props.C19", "NeatviVerif.Props.C19b", "NeatviVerif.Props.C19c", "NeatviVerif.Props.C19d", "NeatviVerif.Props.C19e", "NeatviVerif.Props.C19f", "NeatviVerif.Props.C19g"]; MODE = "vi19"
 
 LED_SRCS = ["probe_led.c"] + [REPO + "/" + f for f in ("ex.c", "lbuf.c", "mot.c", "sbuf.c", "ren.c", "dir.c", "syn.c", "reg.c",
             "uc.c", "term.c", "rset.c", "rstr.c", "regex.c", "cmd.c", "tag.c", "conf.c")]
